@@ -10,6 +10,7 @@ import Driver.Mem
 import Driver.Conn
 import Driver.Enc
 import Driver.Dec
+import Driver.Rig
 /-
   udsdrv: one request per line on stdin, one answer per line on stdout.  Imports Model and Spec only.
 -/
@@ -29,18 +30,23 @@ def dispatch (cmd : String) (a : Args) : Except String String :=
   else if cmd == "dec" then Drv.Dec.run cmd a
   else throw s!"unknown command {cmd}"
 
-partial def loop (hin hout : IO.FS.Stream) : IO Unit := do
+partial def loop (hin hout : IO.FS.Stream) (st : Drv.Rig.St) : IO Unit := do
   let line ← hin.getLine
   if line.isEmpty then return ()
   let (cmd, a) := parseLine line
+  let mut st := st
   if cmd == "" then
     hout.putStrLn "bad-op empty"
+  else if Drv.Rig.isStateful cmd then
+    match Drv.Rig.run st cmd a with
+    | .ok (st', s) => st := st'; hout.putStrLn s
+    | .error e => hout.putStrLn s!"bad-op {e}"
   else
     match dispatch cmd a with
     | .ok s => hout.putStrLn s
     | .error e => hout.putStrLn s!"bad-op {e}"
   hout.flush
-  loop hin hout
+  loop hin hout st
 
 def main : IO Unit := do
-  loop (← IO.getStdin) (← IO.getStdout)
+  loop (← IO.getStdin) (← IO.getStdout) {}
